@@ -231,6 +231,12 @@ func (api *HTTP) DispatchPrivate(w http.ResponseWriter, r *http.Request) {
 func (api *HTTP) DispatchPrivateWithoutAuth(w http.ResponseWriter, r *http.Request) {
 	defer exitOnRecover()
 
+	if strings.HasPrefix(r.URL.Path, "/debug/") {
+		// net/http/pprof, expvar
+		http.DefaultServeMux.ServeHTTP(w, r)
+		return
+	}
+
 	switch r.Method {
 	case http.MethodGet:
 		switch r.URL.Path {
